@@ -12,6 +12,24 @@ the oracle is independent of the pixel-centre convention and of the (separately 
 
 Finding classes are one per public entry point (``C12:Grid2D.padded_grid_from`` ...).  An exception raised on
 one side only, or a different exception type on the two sides, is a violation of the same entry-point class.
+
+Histories inside one structure case (the runner forks a fresh process per chunk, so they cannot span cases):
+
+* the base origin is always evaluated first and the translated origins afterwards, so a process-global memo keyed
+  without the origin shows as a plain covariance violation of the entry point;
+* read-then-derive (``history_grid``, every case): ``parent.over_sampler`` / ``over_sampled_grid`` are read, then
+  ``parent.subtracted_from(offset)`` and ``padded_grid_from`` are derived; the child (grid, mask origin, its over
+  sampler's mask origin and over-sampled grid) must equal the child of an unread parent
+  (``<entry point>:over_sampler-after-read``) and, for ``subtracted_from``, be the parent moved by -offset;
+* read-then-derive on masks (``history_mask``, one (scale, origin) combination per frame x mask): all geometry of the
+  parent is read, then ``resized_from`` / ``rescaled_from`` / ``blurring_from`` children are observed through their
+  own mask centre / unmasked grid / zoom offset and compared with children of an unread parent (``<...>:after-read``);
+* ndarray origins + shared objects (``nd_pass``, same subset): every entry point once more at one origin of the case
+  (base or base+d, rotating) with all origins handed over as float ndarrays and ONE mask / grid / array / dataset
+  shared by all entry points, their properties read first.  Results must be identical to the tuple-origin results at
+  that origin (attributed by re-running the entry point alone: ``<entry point>:ndarray-origin-differs`` or
+  ``<entry point>:after-read``) and after every entry point / property read every origin array must still equal its
+  pristine copy (``origin-mutated-by:<entry point or Type.property>``).
 """
 from fractions import Fraction
 
@@ -30,7 +48,10 @@ RULE = (
     "even/odd frames, frame-touching), each driven through every structure / dataset / index entry point at the "
     "base origin and at base+d for every d of the translation menu; M = mapper cases (mask subset x sub-size "
     "scheme x scale x origin; rectangular meshes of two shapes and a Delaunay mesh on jittered source points in "
-    "general position); H = Hilbert image-mesh cases on circular masks (radius x scale x origin).  "
+    "general position); H = Hilbert image-mesh cases on circular masks (radius x scale x origin).  Every S case also "
+    "runs a read-then-derive history on a grid with an over sampler; one (scale, origin) combination of every "
+    "(frame, mask) also runs a read-then-derive history on the mask and one more pass of all entry points with float "
+    "ndarray origins on shared, already-read objects.  "
     "non-trivial = mask has >=2 unmasked pixels, at least one masked pixel inside its bounding box or a "
     "non-square bounding box or touches the frame (S), any mapper / Hilbert case (M, H)"
 )
@@ -49,12 +70,22 @@ ASSUMPTIONS = [
     "rows of mapper index/weight tables are compared as sets of (pixel index, weight) pairs (vertex order inside "
     "a Delaunay simplex carries no meaning)",
     "SimulatorImaging is run with a fixed noise_seed so simulated values are reproducible",
+    "an origin given as a float ndarray of shape (2,) is a legal input of Mask2D / Mask2D.all_false / Array2D.no_mask / "
+    "Array2D.full / Grid2D.uniform / Kernel2D.no_mask and must give results identical to the tuple with the same "
+    "values; the library must never modify it in place",
+    "in-place origin modification, ndarray/tuple differences and stale cached state do not depend on the pixel scale or "
+    "base origin, so one (scale, origin) combination per (frame, mask) and one origin of the case (rotating over base "
+    "and the four translations) suffice for the ndarray / shared-object pass",
 ]
 BOUNDS = {
     "quick": "S: all 511 masks of a 3x3 free block x 5 frames (5x5 centred, 6x7 and 7x6 off-centre, 3x3 and 4x5 "
     "frame-touching); on the 5x5 frame all 3 pixel-scale pairs x 2 base origins, on the other frames two of the six "
     "combinations rotating with the mask (every frame sees every combination); x 4 translations; 36 entry-point "
     "classes each (the 11 that do not depend on which pixels are masked only on 9 masks per frame/scale/origin); "
+    "+ per S case a read-over-sampler-then-derive history (subtracted_from, padded_grid_from); + for one "
+    "(scale, origin) combination of each of the 5 x 511 (frame, mask) pairs a read-then-derive mask history "
+    "(resized_from, rescaled_from, blurring_from) and one pass of all entry points with ndarray origins on shared "
+    "pre-read objects at one of the 5 origins of the case; "
     "M: 72 masks x 3 sub-size schemes x 2 scales x 2 origins x 4 translations x (2 rectangular + 1 Delaunay mesh); "
     "H: 3 circular radii x 2 scales x 2 origins x 4 translations",
     "thorough": "quick plus S on all 65535 masks of a 4x4 free block in 6x6 / 7x6 / 4x4 frames (frame, scale and "
@@ -220,48 +251,57 @@ class Once:
         self.ok(False, finding, msg)
 
 
-def compare(v, finding, A, B, d, tol):
-    """A, B: Obs (or exception type name) of the entry point at origin o and at o+d."""
+def compare(v, finding, A, B, d, tol, labels=("base", "translated")):
+    """A, B: Obs (or exception type name) of the entry point at origin o and at o+d (d = 0: two evaluations at the
+    same origin that must agree; `labels` names them in the message)."""
     if isinstance(A, str) or isinstance(B, str):
         sa = A if isinstance(A, str) else "no exception"
         sb = B if isinstance(B, str) else "no exception"
-        v.ok(sa == sb, finding, lambda: "%s: %s at the base origin but %s at origin+%s" % (finding, sa, sb, list(d)))
+        v.ok(sa == sb, finding, lambda: "%s: %s (%s) but %s (%s), d=%s" % (finding, sa, labels[0], sb, labels[1], list(d)))
         return
     na = [(n, k) for n, k, _ in A.items]
     nb = [(n, k) for n, k, _ in B.items]
     if na != nb:
-        v.fail(finding, "%s: observables differ between origins: %s vs %s (d=%s)" % (finding, na[:12], nb[:12], list(d)))
+        v.fail(finding, "%s: observables differ between %s and %s: %s vs %s (d=%s)" % (finding, labels[0], labels[1], na[:12], nb[:12], list(d)))
         return
     dv = np.array(d, dtype=float)
+    de = np.array([dv[1], dv[1], dv[0], dv[0]])
     for (name, kind, a), (_, _, b) in zip(A.items, B.items):
         if a.shape != b.shape:
-            v.fail(finding, "%s.%s: shape %s at base vs %s at origin+%s" % (finding, name, a.shape, b.shape, list(d)))
+            v.fail(finding, "%s.%s: shape %s (%s) vs %s (%s), d=%s" % (finding, name, a.shape, labels[0], b.shape, labels[1], list(d)))
             continue
         if a.size == 0:
             v.ok(True, finding)
             continue
+        err = None
         if kind == "coord":
             err = np.abs((b - a) - dv)
-            good = bool(np.all(err <= tol))
+            good = bool(err.max() <= tol)  # a NaN makes this False
         elif kind == "extent":
-            err = np.abs((b - a) - np.array([dv[1], dv[1], dv[0], dv[0]]))
-            good = bool(np.all(err <= tol))
+            err = np.abs((b - a) - de)
+            good = bool(err.max() <= tol)
         elif kind == "close":
             err = np.abs(b - a)
             good = bool(np.all((err <= 1e-9 * (1.0 + np.abs(a))) | (np.isnan(a) & np.isnan(b))))
+        elif a.dtype == b.dtype and a.tobytes() == b.tobytes():
+            good = True
         else:
             good = bool(np.array_equal(a, b, equal_nan=True) if a.dtype.kind == "f" else np.array_equal(a, b))
-            err = None
+        if good:
+            v.ok(True, finding)
+            continue
         v.ok(
-            good,
+            False,
             finding,
-            lambda: "%s.%s (%s) d=%s: base=%s translated=%s%s"
+            "%s.%s (%s) d=%s: %s=%s %s=%s%s"
             % (
                 finding,
                 name,
                 {"coord": "must shift by d", "extent": "must shift by d", "close": "must be unchanged", "same": "must be identical"}[kind],
                 list(d),
+                labels[0],
                 _short(a),
+                labels[1],
                 _short(b),
                 "" if err is None else " max|err|=%.3g" % float(np.max(err)),
             ),
@@ -345,24 +385,137 @@ class Ctx:
         self.overlay_shapes = sorted({(ty[0], tx[0]), (ty[-1] if len(ty) < 2 else ty[1], tx[-1] if len(tx) < 2 else tx[1])})
         self.sub_adapt = 1 + (np.arange(int(u.sum())) % 3)
         self.offset = (float(np.round(rg.uniform(-1, 1), 2)), float(np.round(rg.uniform(-1, 1), 2)))
+        if self.offset[0] == 0.0 or self.offset[1] == 0.0:  # the offset must move both axes
+            self.offset = (0.37, -0.61)
+
+
+class _Mode:
+    """How the S entry points build their inputs during one pass (set by run_S).
+
+    ndarray : every origin handed to the library is a float ndarray (legal); each array is registered together with
+              a pristine copy so that an in-place modification by the library can be detected afterwards.
+    shared  : None -> every entry point builds its own mask / grid / array / dataset from scratch (cold objects);
+              dict -> one mask, grid, array and dataset per origin are shared by all entry points of the pass, and
+              every geometry property of them has been read (caches filled) before any entry point derives anything
+              from them."""
+
+    def __init__(self):
+        self.ndarray = False
+        self.shared = None
+        self.origins = []
+        self.on_read = None
+
+    def set(self, ndarray=False, shared=False):
+        self.ndarray = ndarray
+        self.shared = {} if shared else None
+        self.origins = []
+        self.on_read = None
+
+    def get(self, key, build, warm):
+        if self.shared is None:
+            return build()
+        if key not in self.shared:
+            obj = build()
+            self.shared[key] = obj
+            warm(obj)
+        return self.shared[key]
+
+    def mutated(self):
+        """Registered origin arrays that no longer equal their pristine copy (they are restored)."""
+        bad = []
+        for a, p in self.origins:
+            if not np.array_equal(a, p):
+                bad.append((p.copy(), a.copy()))
+                a[...] = p
+        return bad
+
+
+MODE = _Mode()
+
+
+def org(o):
+    """The origin in the form the current pass hands it to the library."""
+    if not MODE.ndarray:
+        return o
+    a = np.array(o, dtype=float)
+    MODE.origins.append((a, a.copy()))
+    return a
+
+
+_CACHED_NAMES = {}
+
+
+def _read(obj, names, cached=True):
+    """Evaluate properties (filling whatever the library caches); what they return is observed elsewhere.  After each
+    read the registered origin arrays are checked (attribution of in-place modifications to the property read)."""
+    t = type(obj)
+    if t not in _CACHED_NAMES:
+        from autoconf import cached_property
+
+        _CACHED_NAMES[t] = [n for n in dir(t) if isinstance(getattr(t, n, None), cached_property)]
+    for n in list(names) + [c for c in _CACHED_NAMES[t] if cached and c not in names]:
+        try:
+            x = obj
+            for part in n.split("."):
+                x = getattr(x, part)
+        except Exception:  # noqa: BLE001 - e.g. circular_radius of a non-circular mask
+            pass
+        if MODE.on_read is not None and MODE.origins:
+            MODE.on_read("%s.%s" % (t.__name__, n))
+
+
+def _warm_mask(mask):
+    _read(mask, ["mask_centre", "zoom_centre", "zoom_offset_scaled", "zoom_mask_unmasked", "geometry.extent",
+                 "derive_grid.unmasked", "derive_grid.all_false"])
+
+
+def _warm_grid(g):
+    _read(g, ["over_sampler.over_sampled_grid", "over_sampler.slim_for_sub_slim", "geometry.extent", "origin", "native",
+              "shape_native_scaled_interior", "scaled_maxima"])
+
+
+def _warm_array(a):
+    _read(a, ["native", "origin", "geometry.extent"])
+
+
+def _warm_imaging(ds):
+    # explicit list only: the dataset's other cached properties (convolver, w_tilde) hold no coordinates
+    _read(ds, ["grids.uniform", "grids.pixelization", "grids.blurring", "grid", "grids.uniform.over_sampler.over_sampled_grid"], cached=False)
 
 
 def s_entry_points(aa):
     """name -> function(ob, cx, origin).  Every function rebuilds its inputs from scratch at `origin`."""
 
     def mk(cx, o):
-        return aa.Mask2D(mask=cx.m.copy(), pixel_scales=cx.ps, origin=o)
+        def build():
+            return aa.Mask2D(mask=cx.m.copy(), pixel_scales=cx.ps, origin=org(o))
+
+        return MODE.get(("mask", o), build, _warm_mask)
+
+    def gr(cx, o):
+        def build():
+            if MODE.shared is None:
+                return aa.Grid2D.from_mask(mask=mk(cx, o))
+            return aa.Grid2D.from_mask(mask=mk(cx, o), over_sampling=aa.OverSamplingUniform(sub_size=2))
+
+        return MODE.get(("grid", o), build, _warm_grid)
 
     def arr(cx, o, vals=None):
-        return aa.Array2D(values=(cx.values if vals is None else vals).copy(), mask=mk(cx, o))
+        def build():
+            return aa.Array2D(values=(cx.values if vals is None else vals).copy(), mask=mk(cx, o))
+
+        return MODE.get(("array", o, vals is None), build, _warm_array)
 
     def imaging(cx, o):
-        full = aa.Mask2D.all_false(shape_native=cx.m.shape, pixel_scales=cx.ps, origin=o)
-        return aa.Imaging(
-            data=aa.Array2D(values=cx.values.copy(), mask=full),
-            noise_map=aa.Array2D(values=cx.noise.copy(), mask=full),
-            psf=aa.Kernel2D.no_mask(values=cx.kernel.copy(), pixel_scales=cx.ps, origin=o),
-        )
+        def build():
+            full = aa.Mask2D.all_false(shape_native=cx.m.shape, pixel_scales=cx.ps, origin=org(o))
+            return aa.Imaging(
+                data=aa.Array2D(values=cx.values.copy(), mask=full),
+                noise_map=aa.Array2D(values=cx.noise.copy(), mask=full),
+                psf=aa.Kernel2D.no_mask(values=cx.kernel.copy(), pixel_scales=cx.ps, origin=org(o)),
+            )
+
+        return MODE.get(("imaging", o), build, _warm_imaging)
 
     def dataset(ob, ds, blurring=True):
         ob.array("data", ds.data)
@@ -385,7 +538,7 @@ def s_entry_points(aa):
     # ---- grids of a mask
     @ep("Grid2D.from_mask")
     def _(ob, cx, o):
-        g = aa.Grid2D.from_mask(mask=mk(cx, o))
+        g = gr(cx, o)
         ob.grid("grid", g)
         ob.coord("grid.origin", g.origin)
         ob.extent("grid.geometry.extent", g.geometry.extent)
@@ -404,25 +557,25 @@ def s_entry_points(aa):
 
     @ep("Grid2D.blurring_grid_via_kernel_shape_from")
     def _(ob, cx, o):
-        g = aa.Grid2D.from_mask(mask=mk(cx, o))
+        g = gr(cx, o)
         ob.grid("blurring", g.blurring_grid_via_kernel_shape_from(kernel_shape_native=(3, 3)))
 
     @ep("Grid2D.padded_grid_from")
     def _(ob, cx, o):
-        g = aa.Grid2D.from_mask(mask=mk(cx, o))
+        g = gr(cx, o)
         for ks in ((3, 3), (5, 3)):
             ob.grid("k%dx%d" % ks, g.padded_grid_from(kernel_shape_native=ks))
 
     @ep("Grid2D.subtracted_from")
     def _(ob, cx, o):
-        g = aa.Grid2D.from_mask(mask=mk(cx, o))
+        g = gr(cx, o)
         ob.grid("subtracted", g.subtracted_from(offset=cx.offset))
 
     @ep("structure-constructors(origin=)", frame=True)
     def _(ob, cx, o):
-        ob.grid("uniform", aa.Grid2D.uniform(shape_native=cx.m.shape, pixel_scales=cx.ps, origin=o))
-        ob.array("Array2D.no_mask", aa.Array2D.no_mask(values=cx.values.copy(), pixel_scales=cx.ps, origin=o))
-        ob.array("Array2D.full", aa.Array2D.full(fill_value=2.0, shape_native=cx.m.shape, pixel_scales=cx.ps, origin=o))
+        ob.grid("uniform", aa.Grid2D.uniform(shape_native=cx.m.shape, pixel_scales=cx.ps, origin=org(o)))
+        ob.array("Array2D.no_mask", aa.Array2D.no_mask(values=cx.values.copy(), pixel_scales=cx.ps, origin=org(o)))
+        ob.array("Array2D.full", aa.Array2D.full(fill_value=2.0, shape_native=cx.m.shape, pixel_scales=cx.ps, origin=org(o)))
 
     @ep("OverSamplerUniform.over_sampled_grid")
     def _(ob, cx, o):
@@ -490,7 +643,7 @@ def s_entry_points(aa):
 
     @ep("Grid2D.grid_2d_radial_projected_from")
     def _(ob, cx, o):
-        g = aa.Grid2D.from_mask(mask=mk(cx, o))
+        g = gr(cx, o)
         c = add(o, cx.radial_c)
         ob.same("shape_slim", g.grid_2d_radial_projected_shape_slim_from(centre=c))
         for ang in (0.0, 30.0):
@@ -531,7 +684,7 @@ def s_entry_points(aa):
 
     @ep("Mask2D.trimmed_array_from", frame=True)
     def _(ob, cx, o):
-        big = aa.Mask2D.all_false(shape_native=(cx.H + 2, cx.W + 2), pixel_scales=cx.ps, origin=o)
+        big = aa.Mask2D.all_false(shape_native=(cx.H + 2, cx.W + 2), pixel_scales=cx.ps, origin=org(o))
         padded = aa.Array2D(values=np.arange(float((cx.H + 2) * (cx.W + 2))).reshape(cx.H + 2, cx.W + 2), mask=big)
         ob.array("trimmed", big.trimmed_array_from(padded_array=padded, image_shape=(cx.H, cx.W)))
         psf = aa.Kernel2D.no_mask(values=cx.kernel.copy(), pixel_scales=cx.ps)
@@ -589,13 +742,13 @@ def s_entry_points(aa):
 
     @ep("SimulatorImaging.via_image_from", frame=True)
     def _(ob, cx, o):
-        image = aa.Array2D.no_mask(values=cx.values.copy(), pixel_scales=cx.ps, origin=o)
+        image = aa.Array2D.no_mask(values=cx.values.copy(), pixel_scales=cx.ps, origin=org(o))
         for flag in (True, False):
             for sky in (0.0, 2.0):
                 sim = aa.SimulatorImaging(
                     exposure_time=100.0,
                     background_sky_level=sky,
-                    psf=aa.Kernel2D.no_mask(values=cx.kernel.copy(), pixel_scales=cx.ps, origin=o),
+                    psf=aa.Kernel2D.no_mask(values=cx.kernel.copy(), pixel_scales=cx.ps, origin=org(o)),
                     add_poisson_noise_to_data=True,
                     include_poisson_noise_in_noise_map=flag,
                     noise_seed=1,
@@ -608,7 +761,7 @@ def s_entry_points(aa):
 
     @ep("preprocess.noise_map_with_signal_to_noise_limit_from", frame=True)
     def _(ob, cx, o):
-        full = aa.Mask2D.all_false(shape_native=cx.m.shape, pixel_scales=cx.ps, origin=o)
+        full = aa.Mask2D.all_false(shape_native=cx.m.shape, pixel_scales=cx.ps, origin=org(o))
         data = aa.Array2D(values=cx.values.copy(), mask=full)
         noise = aa.Array2D(values=cx.noise.copy(), mask=full)
         nm = aa.preprocess.noise_map_with_signal_to_noise_limit_from(data=data, noise_map=noise, signal_to_noise_limit=5.0)
@@ -666,6 +819,126 @@ def frame_level_bits(bits):
     return bits == 1 or bits % 64 == 63
 
 
+def nd_selected(fi, bits, si, oi):
+    """The ndarray-origin / shared-object pass runs on exactly one (scale, origin) combination of every (frame, mask)."""
+    if fi == 0:
+        return si == bits % 3 and oi == (bits // 3) % 2
+    if fi < len(FRAMES3):
+        combos = sorted({((bits + fi) % 3, bits % 2), ((bits + fi + 1) % 3, (bits + 1) % 2)})
+        return (si, oi) == combos[(bits // 2) % len(combos)]
+    return bits % 3 == 0
+
+
+def _agree(v, name, A, B, tol):
+    """True iff two observation lists of one entry point at the SAME origin are identical (checks are counted)."""
+    probe = V(ID)
+    compare(Once(probe), name, A, B, (0.0, 0.0), tol)
+    v.v.checks += probe.checks
+    return not probe.violations
+
+
+def history_grid(aa, v, cx, o):
+    """(A) parent.over_sampler is READ, then grids are derived from the parent: whatever the parent cached must not
+    travel to the child.  child(read parent) must equal child(unread parent); subtracted_from is a translation by
+    -offset, so every coordinate of the child (and of its over sampler) is the parent's moved by -offset."""
+    off = cx.offset
+    d = (-off[0], -off[1])
+    tol = 1e-9 * (1.0 + max(abs(off[0]), abs(off[1])) + max(abs(o[0]), abs(o[1])))
+
+    def parent():
+        mask = aa.Mask2D(mask=cx.m.copy(), pixel_scales=cx.ps, origin=o)
+        return aa.Grid2D.from_mask(mask=mask, over_sampling=aa.OverSamplingUniform(sub_size=2))
+
+    def observe(ob, g):
+        ob.grid("grid", g)
+        ob.coord("grid.origin", g.origin)
+        osr = g.over_sampler
+        ob.same("over_sampler.mask", np.array(osr.mask))
+        ob.coord("over_sampler.mask.origin", osr.mask.origin)
+        ob.coord("over_sampler.over_sampled_grid", np.array(osr.over_sampled_grid))
+        ob.same("over_sampler.slim_for_sub_slim", np.array(osr.slim_for_sub_slim))
+
+    derive = {
+        "Grid2D.subtracted_from": lambda g: g.subtracted_from(offset=off),
+        "Grid2D.padded_grid_from": lambda g: g.padded_grid_from(kernel_shape_native=(3, 3)),
+    }
+    warm = parent()
+    pre = run_entry(observe, warm)  # reads (and caches) the parent's over sampler
+    for name, fn in derive.items():
+        child_warm = run_entry(lambda ob: observe(ob, fn(warm)))
+        child_cold = run_entry(lambda ob: observe(ob, fn(parent())))
+        if name == "Grid2D.subtracted_from":
+            compare(v, name, pre, child_cold, d, tol, labels=("parent", "parent.subtracted_from(offset), d=-offset"))
+        compare(v, name + ":over_sampler-after-read", child_cold, child_warm, (0.0, 0.0), tol, labels=("derived from an unread parent", "derived after parent.over_sampler was read"))
+    compare(v, "Grid2D.subtracted_from:parent-changed", pre, run_entry(observe, warm), (0.0, 0.0), tol, labels=("parent before", "parent after deriving grids from it"))
+
+
+def history_mask(aa, v, cx, o):
+    """Read-then-derive on a mask: every geometry property of the parent is read, then masks are derived from it;
+    the derived masks (observed through their own geometry) must equal those derived from an unread parent."""
+    tol = 1e-9 * (1.0 + max(abs(o[0]), abs(o[1])))
+
+    def parent():
+        return aa.Mask2D(mask=cx.m.copy(), pixel_scales=cx.ps, origin=o)
+
+    def observe(ob, mk):
+        ob.mask("mask", mk)
+        ob.sub("mask_centre", lambda: ob.coord("mask_centre", mk.mask_centre))
+        ob.sub("unmasked", lambda: ob.coord("derive_grid.unmasked", np.array(mk.derive_grid.unmasked.slim)))
+        ob.sub("zoom", lambda: ob.coord("zoom_offset_scaled", mk.zoom_offset_scaled))
+
+    derive = {
+        "Mask2D.resized_from": lambda m: m.resized_from(new_shape=(cx.H + 2, cx.W + 3), pad_value=1),
+        "Mask2D.rescaled_from": lambda m: m.rescaled_from(rescale_factor=2.0),
+        "Mask2D.derive_mask.blurring_from": lambda m: m.derive_mask.blurring_from(kernel_shape_native=(3, 3)),
+    }
+    warm = parent()
+    _warm_mask(warm)
+    pre = run_entry(observe, warm)
+    for name, fn in derive.items():
+        child_warm = run_entry(lambda ob: observe(ob, fn(warm)))
+        child_cold = run_entry(lambda ob: observe(ob, fn(parent())))
+        compare(v, name + ":after-read", child_cold, child_warm, (0.0, 0.0), tol, labels=("derived from an unread mask", "derived after the mask's geometry was read"))
+    compare(v, "Mask2D:parent-changed-by-derivation", pre, run_entry(observe, warm), (0.0, 0.0), tol, labels=("mask before", "mask after deriving masks from it"))
+
+
+def nd_pass(v, cx, E, o3, ref):
+    """(B) one more evaluation of every entry point at origin o3 with (i) every origin handed to the library as a float
+    ndarray and (ii) one mask / grid / array / dataset shared by all entry points, all their properties read first.
+    Results must be identical to the cold tuple-origin results `ref` at the same origin, and no origin array may have
+    been modified in place."""
+    tol = 1e-12 * (1.0 + max(abs(o3[0]), abs(o3[1])))
+
+    def mutation_check(who):
+        bad = MODE.mutated()
+        v.ok(
+            not bad,
+            "origin-mutated-by:" + who,
+            lambda: "%s modified in place the origin array it was given: %s became %s" % (who, _short(bad[0][0]), _short(bad[0][1])),
+        )
+
+    MODE.set(ndarray=True, shared=True)
+    MODE.on_read = mutation_check
+    try:
+        for k, (finding, _, fn) in E.items():
+            got = run_entry(fn, cx, o3)
+            mutation_check(finding)
+            if _agree(v, finding, ref[k], got, tol):
+                continue
+            # attribute: the same entry point with ndarray origins but objects of its own
+            keep = MODE.shared
+            MODE.shared = None
+            alone = run_entry(fn, cx, o3)
+            MODE.mutated()
+            MODE.shared = keep
+            if not _agree(v, finding, ref[k], alone, tol):
+                compare(v, finding + ":ndarray-origin-differs", ref[k], alone, (0.0, 0.0), tol, labels=("tuple origin", "same origin as float ndarray"))
+            else:
+                compare(v, finding + ":after-read", ref[k], got, (0.0, 0.0), tol, labels=("objects built for this call", "shared objects whose properties were read before"))
+    finally:
+        MODE.set()
+
+
 def run_S(aa, v0, case):
     _, fi, bits, si, oi, seed = case
     cx = Ctx(fi, bits, si, oi, seed)
@@ -673,13 +946,24 @@ def run_S(aa, v0, case):
     E = {k: e for k, e in _eps(aa).items() if frame_level or not e[1]}
     o = cx.o
     v = Once(v0)
+    MODE.set()
     base = {k: run_entry(fn, cx, o) for k, (_, _, fn) in E.items()}
     raised = sorted(n for n, r in base.items() if isinstance(r, str))
+    trans = []
     for d in D_MENU:
         tol = 1e-9 * (1.0 + max(abs(d[0]), abs(d[1])) + max(abs(o[0]), abs(o[1])))
         o2 = add(o, d)
+        res = {}
         for k, (finding, _, fn) in E.items():
-            compare(v, finding, base[k], run_entry(fn, cx, o2), d, tol)
+            res[k] = run_entry(fn, cx, o2)
+            compare(v, finding, base[k], res[k], d, tol)
+        trans.append(res)
+    history_grid(aa, v, cx, o)
+    nd = nd_selected(fi, bits, si, oi)
+    if nd:
+        history_mask(aa, v, cx, o)
+        j = (bits + fi) % (len(D_MENU) + 1)
+        nd_pass(v, cx, E, o if j == 0 else add(o, D_MENU[j - 1]), base if j == 0 else trans[j - 1])
     v = v0
     u = ~cx.m
     n = int(u.sum())
@@ -687,7 +971,7 @@ def run_S(aa, v0, case):
     cols = np.flatnonzero(u.any(axis=0))
     box = u[rows[0] : rows[-1] + 1, cols[0] : cols[-1] + 1]
     v.nontrivial = n >= 2 and (not box.all() or box.shape[0] != box.shape[1] or dom.touches_frame(cx.m))
-    v.outcome = "S:frame%dx%d:n%d:%sraises=%s" % (cx.H, cx.W, n, "+frame-level:" if frame_level else "", ",".join(raised) or "-")
+    v.outcome = "S:frame%dx%d:n%d:%s%sraises=%s" % (cx.H, cx.W, n, "+frame-level:" if frame_level else "", "+ndarray-shared:" if nd else "", ",".join(raised) or "-")
 
 
 # ----------------------------------------------------------------------------------------------- M cases
